@@ -58,6 +58,16 @@ def get_node_id_from_net_config(net_config, node_name):
     return list(sorted(net_config.hostDict.keys())).index(node_name)
 
 
+def get_node_name_from_net_config(net_config, node_id):
+    """
+    Inverse of get_node_id_from_net_config: the node name at index node_id of the sorted list of all node names.
+    """
+    node_names = list(sorted(net_config.hostDict.keys()))
+    if not 0 <= node_id < len(node_names):
+        raise KeyError(f"Unknown node ID {node_id}")
+    return node_names[node_id]
+
+
 def load_node_names(config_file):
     """
     Load list of nodes from Nodes.cfg file
